@@ -6,6 +6,7 @@
 // Synthetic ops (same line protocol as lean/Drivers/C11.lean; floats = 16 hex digits of the IEEE bits):
 //   upd <ne> <nf> <flgH> <nefc> <ncon> {D R floss jar type id}*nefc {dim mu f0..f4}*ncon
 //   jtv <nr> <nc> mat*(nr*nc) vec*nr | dec <dim> pyr.. mu*5 | enc <dim> force*dim mu*5 | pc <ell> <dim> force*dim mu*5
+//   qcqp <dim> <fn> Ac*(dim-1)^2 bc*(dim-1) mu*5      (static solveQCQP; implementation-only op for the oracle)
 // Engine ops (oracle side only; numbers printed with %.17g as one JSON object per line):
 //   model ... end                          build an mjModel through harness/mjbuild.h      -> ok nq nv ngeom | error ..
 //   opt <solver> <cone> <jacobian> <iterations> <tolerance> <impratio> <noslip_iterations>      -> ok
@@ -176,6 +177,19 @@ static void op_pc(char** tok, int n) {
   put_hexes(x, (int)dim); printf("\n");
 }
 
+// solveQCQP (static, engine_solver.c): the friction update of one elliptic contact in PGS and in the noslip
+// solver.  qcqp <dim> <fn> Ac*(dim-1)^2 bc*(dim-1) mu*5  ->  friction*(dim-1)   (oracle only; no Lean model)
+static void op_qcqp(char** tok, int n) {
+  long dim; double x[64], force[6];
+  if (n < 2 || !parse_nat(tok[1], &dim) || dim < 3 || dim > 6) { printf("bad-op\n"); return; }
+  int k = (int)dim - 1;
+  if (n - 2 != 1 + k * k + k + 5 || !parse_hexes(tok + 2, n - 2, x)) { printf("bad-op\n"); return; }
+  force[0] = x[0];
+  for (int j = 1; j < 6; j++) force[j] = 0;
+  solveQCQP(force, 0, (int)dim, x + 1, x + 1 + k * k, x + 1 + k * k + k);
+  put_hexes(force + 1, k); printf("\n");
+}
+
 // ---------------------------------------------------------------- engine ops
 static mjModel* m = NULL;
 static mjSpec* spec = NULL;
@@ -278,6 +292,7 @@ int main(void) {
     else if (!strcmp(op, "dec")) op_dec(tok, n, 0);
     else if (!strcmp(op, "enc")) op_dec(tok, n, 1);
     else if (!strcmp(op, "pc")) op_pc(tok, n);
+    else if (!strcmp(op, "qcqp")) op_qcqp(tok, n);
     else if (!strcmp(op, "model")) {
       if (d) { mj_deleteData(d); d = NULL; }
       if (m) { mj_deleteModel(m); m = NULL; }
